@@ -376,12 +376,29 @@ def depends_on(f, expr, name, depth=3):
     return False
 
 
+def ast_copy(node):
+    """Copy of an AST subtree without the analysis annotations (_parent
+    links would make copy.deepcopy walk the whole module)."""
+    if isinstance(node, list):
+        return [ast_copy(x) for x in node]
+    if not isinstance(node, ast.AST):
+        return node
+    new = type(node)()
+    for fld in node._fields:
+        if hasattr(node, fld):
+            setattr(new, fld, ast_copy(getattr(node, fld)))
+    for a in ('lineno', 'col_offset', 'end_lineno', 'end_col_offset'):
+        if hasattr(node, a):
+            setattr(new, a, getattr(node, a))
+    return new
+
+
 def psrc(f, node, canon=('self', 'other')):
     """Source of node with f's leading parameters renamed to canonical
     names (position decides, not spelling)."""
     import copy
     m = dict(zip(f.params, canon))
-    n2 = copy.deepcopy(node)
+    n2 = ast_copy(node)
     for x in ast.walk(n2):
         if isinstance(x, ast.Name) and x.id in m:
             x.id = m[x.id]
@@ -721,13 +738,13 @@ class _Subst(ast.NodeTransformer):
     def visit_Name(self, node):
         if isinstance(node.ctx, ast.Load) and node.id in self.mapping:
             import copy as _copy
-            return _copy.deepcopy(self.mapping[node.id])
+            return ast_copy(self.mapping[node.id])
         return node
 
 
 def _subst(e, mapping):
     import copy as _copy
-    return _Subst(mapping).visit(_copy.deepcopy(e))
+    return _Subst(mapping).visit(ast_copy(e))
 
 
 def builder_view(f, var, scope=None):
@@ -869,7 +886,7 @@ def view_key(view, names=None):
 
     def r(e):
         import copy as _copy
-        e2 = _copy.deepcopy(e)
+        e2 = ast_copy(e)
         for x in ast.walk(e2):
             if isinstance(x, ast.Name) and x.id in ren:
                 x.id = ren[x.id]
@@ -888,3 +905,135 @@ def view_key(view, names=None):
                 for e, pol in (pos(e_, p_) for e_, p_ in view['conds']))
     return '%s{%s | %s%s}' % (view['kind'], r(view['elem']), gens,
                               ''.join('; ' + c for c in cs))
+
+
+SA_PLAIN_TYPES = {'String', 'Integer', 'Unicode', 'Float', 'DateTime',
+                  'Text', 'Boolean', 'BigInteger', 'SmallInteger',
+                  'UnicodeText', 'Numeric', 'Enum'}
+
+
+def plain_column_types(ctx, R, rule):
+    """Stored value = bound value.  Every Column of the models module has a
+    plain SQLAlchemy type, and no class of the service transforms bound or
+    loaded values (TypeDecorator / process_bind_param / ...).  The rules
+    that compare request text with stored identifiers in Python (loop
+    check, uuid filters) rely on the statement binding exactly the value
+    they compared."""
+    prog = ctx.prog
+    m = prog.module('placement.db.sqlalchemy.models')
+    n = 0
+    bad = []
+    for node in ast.walk(m.tree):
+        if isinstance(node, ast.Call) and isinstance(
+                node.func, ast.Name) and node.func.id == 'Column' and \
+                node.args:
+            n += 1
+            t = node.args[0]
+            if isinstance(t, ast.Constant) and isinstance(t.value, str) \
+                    and len(node.args) > 1:
+                t = node.args[1]
+            tn = t.func if isinstance(t, ast.Call) else t
+            d = prog.dotted(m, tn) or ''
+            if not (d.startswith('sqlalchemy.') and d.rsplit('.', 1)[-1]
+                    in SA_PLAIN_TYPES):
+                bad.append('line %d %s' % (node.lineno, src(t)))
+    R.ob(rule, 'models:plain-column-types', not bad,
+         'every column has a plain SQLAlchemy type (what a statement binds '
+         'is what is stored and compared)', bad[:4] or '%d columns' % n,
+         loc=(m.relpath, 1))
+    hooks = []
+    for mod in prog.modules.values():
+        for node in ast.walk(mod.tree):
+            if isinstance(node, ast.ClassDef):
+                for b in node.bases:
+                    if src(b).split('.')[-1] in ('TypeDecorator',
+                                                 'UserDefinedType',
+                                                 'TypeEngine'):
+                        hooks.append('%s:%d class %s' % (
+                            mod.relpath, node.lineno, node.name))
+            if isinstance(node, ast.FunctionDef) and node.name in (
+                    'process_bind_param', 'process_result_value',
+                    'bind_processor', 'result_processor',
+                    'process_literal_param', 'bind_expression',
+                    'column_expression'):
+                hooks.append('%s:%d def %s' % (mod.relpath, node.lineno,
+                                               node.name))
+    R.ob(rule, 'service:no-value-transforming-types', not hooks,
+         'no class of the service rewrites bound or loaded column values',
+         hooks[:4] or 'none')
+    return n
+
+
+def _defined_names(stmts):
+    """Names assigned, augmented, filled or mutated by a method call whose
+    result is discarded, anywhere inside the statements."""
+    out = set()
+    for st in stmts:
+        for n in ast.walk(st):
+            if isinstance(n, (ast.Assign, ast.AugAssign, ast.AnnAssign)):
+                ts = n.targets if isinstance(n, ast.Assign) else [n.target]
+                for t in ts:
+                    for x in ast.walk(t):
+                        if isinstance(x, ast.Name):
+                            out.add(x.id)
+            elif isinstance(n, ast.Expr) and isinstance(
+                    n.value, ast.Call) and isinstance(
+                        n.value.func, ast.Attribute) and isinstance(
+                            n.value.func.value, ast.Name):
+                out.add(n.value.func.value.id)
+            elif isinstance(n, ast.For):
+                for x in ast.walk(n.target):
+                    if isinstance(x, ast.Name):
+                        out.add(x.id)
+            elif isinstance(n, (ast.Return, ast.Yield)):
+                out.add('<ret>')
+    return out
+
+
+class FlowDeps(Deps):
+    """Deps plus (a) mutation through a method call whose result is
+    discarded (``x.filter(y)`` makes x depend on y), (b) control
+    dependence (what is assigned under ``if t`` - or after ``if t:
+    continue/return/raise`` in the same block - depends on t) and (c) the
+    pseudo-name ``<ret>`` for what the function returns.  ``slice_of_result``
+    lists every expression node in the backward slice of the result."""
+
+    def __init__(self, f):
+        Deps.__init__(self, f)
+        for n in ast.walk(f.node):
+            if isinstance(n, ast.Expr) and isinstance(
+                    n.value, ast.Call) and isinstance(
+                        n.value.func, ast.Attribute) and isinstance(
+                            n.value.func.value, ast.Name):
+                c = n.value
+                for a in list(c.args) + [k.value for k in c.keywords]:
+                    self._add(c.func.value.id, a)
+            elif isinstance(n, (ast.Return, ast.Yield)) and \
+                    n.value is not None:
+                self._add('<ret>', n.value)
+            elif isinstance(n, ast.If):
+                names = _defined_names(n.body) | _defined_names(n.orelse)
+                if not n.orelse and _terminates(n.body) or (
+                        n.orelse and (_terminates(n.body)
+                                      or _terminates(n.orelse))):
+                    par = getattr(n, '_parent', None)
+                    for fld in ('body', 'orelse', 'finalbody'):
+                        blk = getattr(par, fld, None)
+                        if isinstance(blk, list) and any(
+                                n is x for x in blk):
+                            i = [k for k, x in enumerate(blk) if x is n][0]
+                            names |= _defined_names(blk[i + 1:])
+                            # leaving a loop body early also affects what
+                            # the loop computes afterwards in this function
+                for nm in names:
+                    self._add(nm, n.test)
+            elif isinstance(n, (ast.For, ast.While)):
+                src_e = n.iter if isinstance(n, ast.For) else n.test
+                for nm in _defined_names(n.body):
+                    self._add(nm, src_e)
+
+    def slice_of_result(self):
+        seen = []
+        self.reaches(ast.Name(id='<ret>', ctx=ast.Load()),
+                     lambda x: seen.append(x) and False)
+        return seen
